@@ -165,6 +165,37 @@ def capture_after_setup(bt, top, hook):
         c.StrategyBase.adjust = orig
 
 
+@contextlib.contextmanager
+def tap_close_dead(bt, cap):
+    """counts, from outside, what the real CloseDead calls of a run met: children whose price was <= 0, of these the ones holding a
+    position, names deleted from temp['weights']"""
+    cls = bt.algos.CloseDead
+    orig = cls.__call__
+    taps = cap.setdefault("dead_taps", {})
+
+    def w(self, target):
+        try:
+            if "weights" in target.temp:
+                taps["calls"] = taps.get("calls", 0) + 1
+                tw = target.temp["weights"]
+                for c in target.children:
+                    px = target.universe[c].loc[target.now]
+                    if px <= 0:
+                        taps["children-with-price<=0"] = taps.get("children-with-price<=0", 0) + 1
+                        if getattr(target.children[c], "_position", 0.0) != 0:
+                            taps["of-these-holding-a-position"] = taps.get("of-these-holding-a-position", 0) + 1
+                        if c in tw:
+                            taps["names-deleted-from-weights"] = taps.get("names-deleted-from-weights", 0) + 1
+        except Exception:  # noqa
+            pass
+        return orig(self, target)
+    cls.__call__ = w
+    try:
+        yield
+    finally:
+        cls.__call__ = orig
+
+
 def whole_run_protocol(ctx, bt, n, corr_name="whole-run", make_spec=None, footprint_fields=None, extended=False):
     cfg = E.live_cfg(bt)
     lines, meta = [], []
@@ -184,7 +215,7 @@ def whole_run_protocol(ctx, bt, n, corr_name="whole-run", make_spec=None, footpr
             cap["roots"] = roots
         err = None
         try:
-            with capture_after_setup(bt, b.strategy, hook):
+            with capture_after_setup(bt, b.strategy, hook), tap_close_dead(bt, cap):
                 b.run()
         except Exception as e:  # noqa
             err = E.classify_exc(e)
@@ -213,9 +244,27 @@ def whole_run_protocol(ctx, bt, n, corr_name="whole-run", make_spec=None, footpr
                 if any(d[0] in POST_ALGOS for d in t["stack"]):
                     ctx.count("whole-run-x:post:strategies-with-post-steps")
                 ctx.count("whole-run-x:post:strategies")
+                if not any(d_[0] in WEIGHERS for d_ in t["stack"]):
+                    ctx.count("whole-run-x:blotter-driven-strategy")      # no selection / weigher: rows of a frame are executed
+                    for k in t["kids"]:
+                        post_counts(k)
+                    return
+                _, _, sels_, wgh_, post_ = split_stack_x(t["stack"])
+                for d in sels_:
+                    ctx.count("whole-run-x:sel:" + d[0])
+                    if d[0] == "SetStatSelectN":
+                        ctx.count("whole-run-x:sel:SetStat")
+                        ctx.count("whole-run-x:sel:SelectN")
+                ctx.count("whole-run-x:weigher:" + wgh_[0] + ("+post" if (wgh_[0] == "WeighTarget" and (post_ or t["stack"][-1][0] != "Rebalance")) else ""))
+                if any(d[0] in SEL_F or d[0] == "CloseDead" for d in t["stack"]) or (wgh_[0] == "WeighTarget" and (post_ or sels_ or t["stack"][-1][0] != "Rebalance")):
+                    ctx.count("whole-run-x:strategies-with-new-steps")
                 for k in t["kids"]:
                     post_counts(k)
             post_counts(spec["tree"])
+            if spec.get("dead"):
+                ctx.count("whole-run-x:programs-with-a-zero-price-spell")
+            for k_, v_ in cap.get("dead_taps", {}).items():
+                ctx.count("whole-run-x:CloseDead:" + k_, v_)
         ctx.count(corr_name + ":worlds(root+shadow-copies)", len(cap["roots"]))
         ctx.classes.add(("whole", depth, spec["tree"]["stack"][0][0], tuple(x[0] for x in spec["tree"]["stack"][1:-1]),
                          spec["integer"], spec["comm"][0], spec["bidoffer"] is not None, bool(b.strategy.bankrupt)))
@@ -266,14 +315,26 @@ def whole_run_protocol(ctx, bt, n, corr_name="whole-run", make_spec=None, footpr
 
 # ---------------------------------------------------------------------------------------------------------------
 # extended programs (`wholerunx`): the selection part is a sequence of SelectAll / SelectThese / SelectHasData / SelectMomentum
-POST_ALGOS = ("ScaleWeights", "LimitWeights", "LimitDeltas", "SetCash", "RebalanceOverTime")
+POST_ALGOS = ("ScaleWeights", "LimitWeights", "LimitDeltas", "SetCash", "RebalanceOverTime", "CloseDead")
 WEIGHERS = ("WeighEqually", "WeighSpecified", "WeighTarget")
+# selection algos driven by a frame the user supplies, and flow control on the selection
+SEL_F = ("SelectWhere", "SetStatSelectN", "Require", "SelectRegex", "SelectTypes")
 
 
-def gen_post_x(rng, names, wgh, raising=False):
+def gen_post_x(rng, names, wgh, raising=False, dead=False):
     """the algos between the weigher and Rebalance: about a third of the stacks carry one or two of ScaleWeights / LimitWeights /
     LimitDeltas / SetCash.  LimitWeights wants weights that sum to one (ffn raises otherwise): unless `raising`, it only follows a
-    weigher whose weights do, and comes first."""
+    weigher whose weights do, and comes first.  CloseDead: anywhere after LimitWeights; almost always when a price of the data
+    drops to exactly zero (`dead`) and the weigher names its securities itself (Rebalance cannot allocate at a zero price)."""
+    by_name = wgh[0] in ("WeighSpecified", "WeighTarget")
+    out = _gen_post_x(rng, names, wgh, raising)
+    if rng.random() < (0.85 if (dead and by_name) else (0.3 if dead else 0.05)):
+        first = 1 if (out and out[0][0] == "LimitWeights" and not raising) else 0
+        out.insert(rng.randint(first, len(out)), ["CloseDead"])
+    return out
+
+
+def _gen_post_x(rng, names, wgh, raising=False):
     if rng.random() >= 0.36:
         return []
     n = len(names)
@@ -281,7 +342,7 @@ def gen_post_x(rng, names, wgh, raising=False):
                                                 and all(v > 0 for v in wgh[1].values()))
 
     def lw():
-        k = n if wgh[0] == "WeighEqually" else len(wgh[1])
+        k = n if wgh[0] != "WeighSpecified" else len(wgh[1])
         r = rng.random()
         if r < 0.15:
             return ["LimitWeights", rng.choice([0.5 / k, 0.9 / k, 0.05])]          # infeasible cap: the weights are emptied
@@ -315,6 +376,10 @@ def gen_post_x(rng, names, wgh, raising=False):
     return out
 
 
+def any_stack(t, pred):
+    return pred(t["stack"]) or any(any_stack(k, pred) for k in t["kids"])
+
+
 def has_memory(t):
     """some stack of the tree ends in run_always(RebalanceOverTime): the driver then threads the algo objects' memory (`wholeruns`)"""
     last = t["stack"][-1]
@@ -332,15 +397,72 @@ def split_stack_x(st):
     return flow, st[0], st[1:j], st[j], st[j + 1:-1]
 
 
-def gen_stack_x(rng, names, lev=False, rank_ok=True, flow_ok=True, raising=False):
-    """rank_ok=False: no ranked selection (a strategy over sub-strategies: their indices are exactly flat until they trade, so total
-    returns tie exactly and the winner would be pandas' sort order, an implementation detail the model does not claim)"""
+def gen_sels_f(rng, names, raising=False):
+    """selection parts built from the frame-driven algos: SelectWhere(signal frame), SetStat(frame, lag) + SelectN, and the
+    flow-control / name filters Require, SelectRegex, SelectTypes.  Statistics have no two equal values in a row."""
+    def where(keep=None):
+        o = {"keep": rng.choice([1.0, 1.0, 0.6]) if keep is None else keep, "nan": rng.choice([0, 0, 0.15])}
+        if rng.random() < 0.15:
+            o["neg"] = True
+        if rng.random() < 0.06:
+            o["nd"] = True
+        return ["SelectWhere", rng.randint(0, 10 ** 6), o]
+
+    def statn(fs=None):
+        n = rng.choice([rng.randint(1, max(1, len(names))), rng.randint(1, max(1, len(names))), rng.choice([0.5, 0.34, 0.75])])
+        o = {"distinct": True, "nan": rng.choice([0, 0, 0.15]), "aon": rng.random() < 0.25,
+             "fs": (rng.random() < 0.6) if fs is None else fs}
+        return ["SetStatSelectN", rng.randint(0, 10 ** 6), n, rng.choice([0, 0, 1, 2, 3]), rng.random() < 0.6, o]
+    q = rng.random()
+    if q < 0.27:
+        return [["SelectAll"], where()]
+    if q < 0.35:
+        return [where(1.0 if not (raising and rng.random() < 0.3) else 0.6)]       # alone: a date absent from the frame leaves nothing selected
+    if q < 0.62:
+        return [["SelectAll"], statn()]
+    if q < 0.72:
+        return [["SelectAll"], where(), statn(True)]
+    if q < 0.82:
+        return [["SelectAll"], where(), ["Require", rng.random() < 0.5]]
+    if q < 0.87:
+        return [["Require", rng.random() < 0.7], ["SelectAll"], statn(), ["Require", False]]
+    if q < 0.94:
+        pat = rng.choice(["a|c", "^b", "[ace]", "s0$|d", "^top", "e$", "."])
+        return [["SelectAll"], ["SelectRegex", pat]]
+    incl, excl = rng.choice([(["SecurityBase"], []), (["Node"], ["StrategyBase"]), (["Node"], []), (["StrategyBase", "Security"], []),
+                             (["Strategy"], [])])
+    if rng.random() < 0.5:
+        return [["SelectAll"], ["SelectTypes", incl, excl]]
+    return [["SelectTypes", incl, excl], ["SelectHasData", rng.choice([1, 2, 3, 5]), 1]]
+
+
+def sel_safe(sels):
+    """every name the selection part can hand on has passed a filter on the current row's data"""
+    ok = False
+    for s_ in sels:
+        if s_[0] in ("SelectAll", "SelectThese", "SelectHasData", "SelectMomentum"):
+            ok = True
+        elif s_[0] == "SelectWhere":
+            o = s_[2] if len(s_) > 2 else {}
+            ok = (not o.get("nd")) and (ok or o.get("keep", 1.0) >= 1.0)
+        elif s_[0] == "SetStatSelectN":
+            ok = ok and bool((s_[5] if len(s_) > 5 else {}).get("fs"))
+        elif s_[0] == "SelectTypes":
+            ok = ok
+    return ok
+
+
+def gen_stack_x(rng, names, lev=False, rank_ok=True, flow_ok=True, raising=False, dead=False):
+    """rank_ok=False: no ranked selection by returns (a strategy over sub-strategies: their indices are exactly flat until they trade,
+    so total returns tie exactly and the winner would be pandas' sort order, an implementation detail the model does not claim)"""
     base = gen_stack(rng, names, lev)
     sched, wgh = base[0], base[2]
     r = rng.random()
     if not rank_ok:
         r = 0.2 if r < 0.5 else 0.9
-    if r < 0.25:
+    if rng.random() < 0.3:
+        sels = gen_sels_f(rng, names, raising)
+    elif r < 0.25:
         sels = [["SelectAll"], ["SelectHasData", rng.choice([1, 2, 3, 5, 10]), rng.randint(1, 4)]]
     elif r < 0.6:
         sels = [["SelectAll"], ["SelectMomentum", rng.randint(1, max(1, len(names))), rng.choice([1, 2, 3, 7, 20]), rng.choice([0, 0, 1, 2])]]
@@ -351,7 +473,7 @@ def gen_stack_x(rng, names, lev=False, rank_ok=True, flow_ok=True, raising=False
         sels = [["SelectThese", rng.sample(names, k)], ["SelectMomentum", 1, rng.choice([2, 4]), 0]]
     else:
         sels = [base[1]]
-    if any(s[0] in ("SelectHasData", "SelectMomentum") for s in sels):
+    if any(s[0] in ("SelectHasData", "SelectMomentum") + SEL_F for s in sels):
         wgh = ["WeighEqually"]      # what a data filter selected is what gets traded
     r2 = rng.random()
     if r2 < 0.1:
@@ -366,27 +488,45 @@ def gen_stack_x(rng, names, lev=False, rank_ok=True, flow_ok=True, raising=False
         # on the synthetic row): select on data
         if wgh[0] != "WeighEqually" or sels[0][0] == "SelectThese":
             sels, wgh = [["SelectAll"]], ["WeighEqually"]
+        elif not sel_safe(sels) or sels[0][0] in ("SelectWhere", "Require"):
+            # (a signal frame has no row for the synthetic date: something must have been selected before)
+            rest = [s for s in sels if not (s[0] == "SetStatSelectN" and not s[5].get("fs"))]
+            sels = ([] if rest and rest[0][0] == "SelectAll" else [["SelectAll"]]) + rest
     last = ["Rebalance"]
     if rng.random() < 0.08:
         # RebalanceOverTime in place of Rebalance (no run_always wrapper: it is re-armed by every call that reaches it)
         last = ["RebalanceOverTime", rng.choice([1, 2, 3, 5, 10])]
-    post = gen_post_x(rng, names, wgh, raising)
+    post = gen_post_x(rng, names, wgh, raising, dead)
     if rng.random() < 0.07:
         # run_always(RebalanceOverTime(n)): armed by a day on which the stack gets through, it keeps trading towards those weights on
         # the following calls (temp['cash'] is left out of these stacks: whether SetCash is reached depends on where the stack stops)
         last = ["RebalanceOverTime", rng.choice([2, 3, 4, 5, 8]), True]
         post = [d for d in post if d[0] != "SetCash"]
     st = [sched] + sels + [wgh] + post + [last]
-    if rng.random() < 0.15 and sched[0] in KINDS:
-        # dated target weights: [scheduler, WeighTarget(frame over a subset of the dates), Rebalance]
-        st = [sched, ["WeighTarget", rng.randint(0, 10 ** 6)], ["Rebalance"]]
+    if rng.random() < 0.17 and sched[0] in KINDS:
+        # dated target weights: [scheduler, (frame-driven selection, gating only)?, WeighTarget(frame over a subset of the dates),
+        # post-processing?, Rebalance | RebalanceOverTime]
+        wt = ["WeighTarget", rng.randint(0, 10 ** 6)]
+        if rng.random() < 0.55:
+            tsels = []
+            if rng.random() < 0.25:
+                tsels = gen_sels_f(rng, names)
+            tpost = gen_post_x(rng, names, wt, raising, dead)
+            tlast = last if rng.random() < 0.5 else ["Rebalance"]
+            if len(tlast) > 2:
+                tpost = [d for d in tpost if d[0] != "SetCash"]
+            st = [sched] + tsels + [wt] + tpost + [tlast]
+        else:
+            st = [sched, wt, ["Rebalance"]]
     if flow_ok and rng.random() < 0.25:
         st = [["CapitalFlow", float(rng.choice([100.0, 2500.0, 10000.0, -50.0, -1000.0]))]] + st
     return st
 
 
-def gen_spec_x(rng, nested=None, raising=False):
-    """raising: post-processing algos may be stacked so that LimitWeights raises (weights that do not sum to one)"""
+def gen_spec_x(rng, nested=None, raising=False, dead=None):
+    """raising: post-processing algos may be stacked so that LimitWeights raises (weights that do not sum to one).
+    dead: one price column drops to exactly 0.0 on some row >= 2 (for the rest of the data or for a spell): what CloseDead is for;
+    None: one program in five"""
     spec = gen_spec(rng, nested=nested)
     if spec["grid"] != "float":
         # ranked selection: avoid exact ties between total returns (pandas' sort is then an implementation detail)
@@ -394,10 +534,13 @@ def gen_spec_x(rng, nested=None, raising=False):
         for j, t in enumerate(spec["tickers"]):
             col = spec["prices"][t]
             spec["prices"][t] = [None if p is None else p * (1.0 + 0.001 * (j + 1)) + 0.0001 * i * (j + 1) for i, p in enumerate(col)]
+    if dead is None:
+        dead = rng.random() < 0.2
+    dead = bool(dead) and len(spec["tickers"]) >= 2 and len(spec["dates"]) >= 5
 
     def redo(t):
         names = [k["name"] for k in t["kids"]] + t["tickers"]
-        t["stack"] = gen_stack_x(rng, names, rank_ok=not t["kids"], raising=raising)
+        t["stack"] = gen_stack_x(rng, names, rank_ok=not t["kids"], raising=raising, dead=dead)
         for k in t["kids"]:
             redo(k)
     redo(spec["tree"])
@@ -408,22 +551,47 @@ def gen_spec_x(rng, nested=None, raising=False):
             spec["prices"][t] = [None] * k + [p if p is not None else 10.0 + 0.37 * i for i, p in enumerate(spec["prices"][t][k:])]
     # a late listing may only meet stacks whose selection filters on data
     def safe(t):
-        wgh = split_stack_x(t["stack"])[3]
-        return wgh[0] == "WeighEqually" and all(safe(k) for k in t["kids"])     # (a WeighTarget stack is not: it trades by name)
+        _, _, sels, wgh, _ = split_stack_x(t["stack"])
+        return wgh[0] == "WeighEqually" and sel_safe(sels) and all(safe(k) for k in t["kids"])     # (a WeighTarget stack is not: it trades by name)
     if not safe(spec["tree"]):
         for j, t in enumerate(spec["tickers"]):
             spec["prices"][t] = [p if p is not None else 10.0 + 0.37 * i + j for i, p in enumerate(spec["prices"][t])]
+    # a program that allocates to a name at a price of zero raises (documented): unless `raising`, a zero-price spell may only meet
+    # stacks that trade what a `price > 0` filter selected on the day (no include_negative, no weights remembered across days)
+    def dead_safe(t):
+        _, _, sels, _, _ = split_stack_x(t["stack"])
+        return not any(s_[0] == "SelectWhere" and len(s_) > 2 and s_[2].get("neg") for s_ in sels) and all(dead_safe(k) for k in t["kids"])
+    if dead and not raising and not (safe(spec["tree"]) and dead_safe(spec["tree"]) and not has_memory(spec["tree"])
+                                     and not any_stack(spec["tree"], lambda st: st[-1][0] == "RebalanceOverTime")):
+        dead = False
+    if dead:
+        t = rng.choice(spec["tickers"])
+        k = rng.randint(2, T - 2)
+        end = T if rng.random() < 0.6 else min(T, k + rng.randint(1, 3))
+        spec["prices"][t] = [0.0 if (k <= i < end and p is not None) else p for i, p in enumerate(spec["prices"][t])]
+        spec["dead"] = [t, k, end]
     return spec
+
+
+def live_algos(node, spec_stack):
+    """the live algo objects of a strategy node, aligned with the descriptors of its stack"""
+    algos = list(node.stack.algos)
+    if len(algos) == len(spec_stack) + 1:
+        algos = algos[1:]          # a Spy in front
+    if len(algos) != len(spec_stack):
+        raise ValueError("stack of %s: %d algos for %d descriptors" % (node.name, len(algos), len(spec_stack)))
+    return algos
 
 
 def ser_progx(bt, node, spec_node, bdates, first_row=1):
     kids = list(node._childrenv)
     name_idx = {k.name: i for i, k in enumerate(kids)}
     flow, sched, sels, wgh, post = split_stack_x(spec_node["stack"])
+    live = dict((id(d), a) for d, a in zip(spec_node["stack"], live_algos(node, spec_node["stack"])))
     is_target = wgh[0] == "WeighTarget"
     last = spec_node["stack"][-1]
     rot_always = last[0] == "RebalanceOverTime" and len(last) > 2 and last[2]
-    toks = ["T" if is_target else ("R " + E.tF(float(last[1])) if rot_always else "X"), E.tO(flow)]
+    toks = ["R " + E.tF(float(last[1])) if rot_always else "X", E.tO(flow)]
     if sched[0] in KINDS:
         toks += [str(KINDS[sched[0]]), E.tB(sched[1]), E.tB(sched[2]), E.tB(sched[3])]
     elif sched[0] == "RunOnce":
@@ -434,26 +602,6 @@ def ser_progx(bt, node, spec_node, bdates, first_row=1):
         toks += ["7", str(sched[1]), str(first_row)]
     else:
         raise ValueError(sched[0])
-    if is_target:
-        algo = [a for a in node.stack.algos if type(a).__name__ == "WeighTarget"][0]
-        wf = algo.weights
-        rows = []
-        for d in bdates:
-            if d in wf.index:
-                r = wf.loc[d]
-                items = [(name_idx[c], float(r[c])) for c in wf.columns if r[c] == r[c]]
-                rows.append("%d %s" % (len(items), " ".join("%d %s" % (i, E.tF(x)) for i, x in items)))
-            else:
-                rows.append("N")
-        toks.append("%d %s" % (len(rows), " ".join(rows)))
-        by_name = {k["name"]: k for k in spec_node["kids"]}
-        toks.append(str(len(kids)))
-        for k in kids:
-            if isinstance(k, bt.core.StrategyBase):
-                toks.append("P " + ser_progx(bt, k, by_name[k.name], bdates, first_row))
-            else:
-                toks.append("N")
-        return " ".join(toks)
     ucols = [name_idx[c] for c in node._universe.columns if c in name_idx]
     toks.append(E.tL(ucols, str))
     dates = [pd.Timestamp(d) for d in bdates]
@@ -480,15 +628,71 @@ def ser_progx(bt, node, spec_node, bdates, first_row=1):
                     vis = dates[:now + 1]
                     wins.append("%d %d" % (sum(1 for d in vis if d < a), sum(1 for d in vis if d <= t0)))
             stoks.append("M %d %s I %d 0 0" % (n, " ".join(wins), s[1]))
+        elif s[0] == "SelectWhere":
+            # what the live algo will read: `signal.loc[now]` on the dates of its frame's index; a cell counts when `== True`
+            algo = live[id(s)]
+            sf = algo.signal
+            rows = []
+            for d in dates:
+                if d in sf.index:
+                    r = sf.loc[d]
+                    cells = []
+                    for c in sf.columns:
+                        v = r[c]
+                        cells.append("N" if v != v else ("1" if bool(v == True) else "0"))      # noqa: E712
+                    rows.append("%d %s" % (len(cells), " ".join(cells)))
+                else:
+                    rows.append("N")
+            stoks.append("W %s %d %s %s %s" % (E.tL([name_idx[c] for c in sf.columns], str), n, " ".join(rows),
+                                               E.tB(algo.include_no_data), E.tB(algo.include_negative)))
+        elif s[0] == "SetStatSelectN":
+            # `stat.loc[now - lag]` when that date is in the frame's index (else SetStat answers False); then SelectN's parameters
+            stack = live[id(s)]
+            setstat, seln = stack.algos[0], stack.algos[1]
+            sf = setstat.stat
+            rows = []
+            for d in dates:
+                t0 = d - setstat.lag
+                if t0 in sf.index:
+                    r = sf.loc[t0]
+                    cells = [E.tO(None if r[c] != r[c] else float(r[c])) for c in sf.columns]
+                    rows.append("%d %s" % (len(cells), " ".join(cells)))
+                else:
+                    rows.append("N")
+            ntok = ("I %d" % seln.n) if isinstance(seln.n, int) else ("R " + E.tF(float(seln.n)))
+            stoks.append("N %s %d %s %s %s %s %s" % (E.tL([name_idx[c] for c in sf.columns], str), n, " ".join(rows), ntok,
+                                                     E.tB(seln.ascending), E.tB(seln.all_or_none), E.tB(seln.filter_selected)))
+        elif s[0] == "Require":
+            stoks.append("Q " + E.tB(live[id(s)].if_none))
+        elif s[0] == "SelectRegex":
+            rx = live[id(s)].regex
+            stoks.append("X " + E.tL([i for i, k in enumerate(kids) if rx.search(k.name)], str))
+        elif s[0] == "SelectTypes":
+            algo = live[id(s)]
+            stoks.append("Y %s %s %s" % (E.tL([(i, type(k).__name__) for i, k in enumerate(kids)], lambda q: "%d %s" % q),
+                                         E.tL([c.__name__ for c in algo.include_types], str),
+                                         E.tL([c.__name__ for c in algo.exclude_types], str)))
         else:
             raise ValueError(s[0])
     toks.append("%d %s" % (len(stoks), " ".join(stoks)))
     if wgh[0] == "WeighEqually":
         toks.append("E")
+    elif is_target:
+        # `G`: one entry per row of the index - N when the date is not in the frame's index, else the row's non-missing weights
+        wf = live[id(wgh)].weights
+        rows = []
+        for d in bdates:
+            if d in wf.index:
+                r = wf.loc[d]
+                items = [(name_idx[c], float(r[c])) for c in wf.columns if r[c] == r[c]]
+                rows.append("%d %s" % (len(items), " ".join("%d %s" % (i, E.tF(x)) for i, x in items)))
+            else:
+                rows.append("N")
+        toks.append("G %d %s" % (len(rows), " ".join(rows)))
     else:
         items = [(name_idx[x], w) for x, w in wgh[1].items()]
         toks.append("S %d %s" % (len(items), " ".join("%d %s" % (i, E.tF(w)) for i, w in items)))
-    # post-processing: `C scale` | `W limit` | `D order glob? per-name limits`; then temp['cash'] (SetCash) or N
+    # post-processing: `C scale` | `W limit` | `D order glob? per-name limits` | `K` (CloseDead); then temp['cash'] (SetCash) or N
     ptoks, cash = [], None
     for d in post:
         if d[0] == "ScaleWeights":
@@ -506,6 +710,8 @@ def ser_progx(bt, node, spec_node, bdates, first_row=1):
                 ptoks.append("D %s %s 0" % (E.tL(order, str), E.tF(float(d[1]))))
         elif d[0] == "SetCash":
             cash = float(d[1])
+        elif d[0] == "CloseDead":
+            ptoks.append("K")
         else:
             raise ValueError(d[0])
     if rot_always:
